@@ -127,6 +127,38 @@ def extGrid (fder : Nat) (Ef : Nat → Rat) (n : Nat) (j : Nat) : Rat := EFmin E
 /-- cumulative DOS of one k-point: `Identity` formula, trace = group size -/
 def sizeOf (ab : Nat × Nat) : Rat := ((ab.2 - ab.1 : Nat) : Rat)
 
+/-! ### value assembly, overall scalars, hole-like calculators -/
+
+/-- `values[ik][n]`: `tr a b` stands for `formula.trace(ik, inn = arange(a,b), out = the other bands)`.
+    additive formulas: `trace(ik, inn, out)` of the group; otherwise `_values[n[1]] - _values[n[0]]` with
+    `_values[m] = trace(ik, arange(0,m), arange(m,NB))` -/
+def assemble (additive : Bool) (tr : Nat → Nat → Rat) (ab : Nat × Nat) : Rat :=
+  if additive then tr ab.1 ab.2 else tr 0 ab.2 - tr 0 ab.1
+
+/-- `np.sign` -/
+def sgn (c : Rat) : Rat := if c > 0 then 1 else if c < 0 then -1 else 0
+
+/-- the factor the result is finally multiplied with: `__init__` flips the sign of `constant_factor` for a hole-like
+    Fermi-sea calculator; `use_factor=False` keeps only the sign -/
+def effFactor (cf : Rat) (holeLike : Bool) (fder : Nat) (useFactor : Bool) : Rat :=
+  let c := if holeLike && fder == 0 then -cf else cf
+  if useFactor then c else sgn c
+
+/-- `EnergyResult.data[j]` of a (non-tetra) `StaticCalculator` with all scalars:
+    `restot /= cell_volume; restot /= nk; restot *= constant_factor` -/
+def fullUnresolved (cf vol : Rat) (holeLike useFactor : Bool) (fder : Nat) (Ef : Nat → Rat) (n : Nat)
+    (ks : List (List Group)) (j : Nat) : Rat :=
+  unresolved fder Ef n ks j / vol * effFactor cf holeLike fder useFactor
+
+/-- `K__Result.data[ik, j]` with all scalars (no division by `nk`) -/
+def fullResolved (cf vol : Rat) (holeLike useFactor : Bool) (fder : Nat) (Ef : Nat → Rat) (n : Nat)
+    (g : List Group) (j : Nat) : Rat :=
+  resolved fder Ef n g j / vol * effFactor cf holeLike fder useFactor
+
+/-- `_DOS.__call__` (CumDOS, DOS, Spin, …): `super().__call__(data_K) * data_K.cell_volume` -/
+def dosClass (vol : Rat) (fder : Nat) (Ef : Nat → Rat) (n : Nat) (ks : List (List Group)) (j : Nat) : Rat :=
+  fullUnresolved 1 vol false true fder Ef n ks j * vol
+
 /-! ### driver -/
 open WB.IO
 
@@ -182,6 +214,20 @@ def handle : List String → String
       if l.isEmpty || ks.isEmpty then "bad-op" else
       showRats ((List.range l.length).map (unresolved f (ofList l) l.length ks))
     | _, _, _ => "bad-op"
+  -- full cf vol hole usefactor fder Ef groupsPerK  -> unresolved result with all scalars
+  | ["full", cf, vol, hole, uf, fder, ef, gs] =>
+    match parseRat? cf, parseRat? vol, parseBool? hole, parseBool? uf, parseNat? fder, parseRats? ef, parseGroupss? gs with
+    | some c, some v, some h, some u, some f, some l, some ks =>
+      if l.isEmpty || ks.isEmpty || v = 0 then "bad-op" else
+      showRats ((List.range l.length).map (fullUnresolved c v h u f (ofList l) l.length ks))
+    | _, _, _, _, _, _, _ => "bad-op"
+  -- fullres cf vol hole usefactor fder Ef groupsPerK  -> k-resolved result with all scalars
+  | ["fullres", cf, vol, hole, uf, fder, ef, gs] =>
+    match parseRat? cf, parseRat? vol, parseBool? hole, parseBool? uf, parseNat? fder, parseRats? ef, parseGroupss? gs with
+    | some c, some v, some h, some u, some f, some l, some ks =>
+      if l.isEmpty || ks.isEmpty || v = 0 then "bad-op" else
+      showRatss (ks.map (fun g => (List.range l.length).map (fullResolved c v h u f (ofList l) l.length g)))
+    | _, _, _, _, _, _, _ => "bad-op"
   -- res fder Ef groupsPerK   -> k-resolved result, one row per k
   | ["res", fder, ef, gs] =>
     match parseNat? fder, parseRats? ef, parseGroupss? gs with
